@@ -76,12 +76,7 @@ func TestWorker(t *testing.T) {
 	if *fList {
 		ps := map[string]any{}
 		for id, p := range props {
-			align := 1
-			for _, f := range p.Families {
-				if f.Group > align {
-					align = f.Group
-				}
-			}
+			align := p.align()
 			ps[id] = map[string]any{"quick": p.Quick, "thorough": p.Thorough, "align": align, "rule": p.Rule,
 				"level": p.Level, "race": p.Race, "race_quick": p.RaceQuick, "race_thorough": p.RaceThorough}
 		}
